@@ -69,6 +69,19 @@ MUTANTS = [
  ("C23", "T4-delete-before-verify", MIG,
   "the DeleteOld step is moved before verification; needs Verify + DeleteOld and a verification failure",
   move_block("\t// Step 4: Delete old files (if enabled)", "\tatomic.AddInt64(&m.result.SuccessfulSwamps, 1)\n}", "\t// Step 3: Verify (if enabled)")),
+ ("C23", "T6-name-lowercased", MIG,
+  "loadSwampNameFromMeta returns strings.ToLower(name); needs a swamp name with an upper-case letter, compared byte for byte",
+  rep("\treturn meta.SwampName, nil\n", "\treturn strings.ToLower(meta.SwampName), nil\n")),
+ ("C23", "T7-verify-skips-missing-key", MIG,
+  "verifyMigration logs a missing key instead of failing; needs a new file that really lacks a key (swapped in between write and verify)",
+  rep("\t\t\treturn fmt.Errorf(\"missing key after migration: %s\", key)\n", "\t\t\tslog.Warn(\"missing key after migration\", \"key\", key)\n")),
+ ("C23", "T8-refused-record-skipped", MIG,
+  "writeV2File skips a record the V2 writer refuses instead of failing the swamp; needs a V1 record with a key longer than 65535 bytes: dropped silently, gone for good with DeleteOld",
+  rep("\t\tif err := writer.WriteEntry(entry); err != nil {\n\t\t\twriter.Close()\n\t\t\tos.Remove(filePath)\n\t\t\treturn err\n\t\t}",
+      "\t\tif err := writer.WriteEntry(entry); err != nil {\n\t\t\tif errors.Is(err, v2.ErrKeyTooLong) || errors.Is(err, v2.ErrEmptyKey) {\n\t\t\t\tcontinue\n\t\t\t}\n\t\t\twriter.Close()\n\t\t\tos.Remove(filePath)\n\t\t\treturn err\n\t\t}")),
+ ("C23", "T9-existing-target-only-when-verifying", MIG,
+  "the target-exists refusal is skipped when Verify is off; needs a file at the target path and Verify=false",
+  rep("\tif _, statErr := os.Stat(hydFilePath); !errors.Is(statErr, os.ErrNotExist) {", "\tif _, statErr := os.Stat(hydFilePath); m.config.Verify && !errors.Is(statErr, os.ErrNotExist) {")),
  ("C23", "T5-dedupe-keeps-first", MIG,
   "loadV1Swamp keeps the first value of a key; needs a chunk that holds a key twice",
   rep("\t\t\tentryMap[entry.Key] = entry\n", "\t\t\tif _, ok := entryMap[entry.Key]; !ok {\n\t\t\t\tentryMap[entry.Key] = entry\n\t\t\t}\n")),
